@@ -10,6 +10,7 @@ single-node scenarios.
 """
 from __future__ import annotations
 
+from enum import Enum
 from typing import Any, Callable, Dict, List, Optional, Tuple
 
 import qlink_interface as ql
@@ -27,6 +28,14 @@ from netqasm.qlink_compat import (
 from sim.core import Choices, Sched, Trace
 
 PHYS_BASE = 1000
+
+
+class LinkBell(Enum):
+    """The link layer's own Bell-state numbering (the published one), independent of the repository's enum."""
+    PHI_PLUS = 0   # |00> + |11>
+    PSI_PLUS = 1   # |01> + |10>
+    PSI_MINUS = 2  # |01> - |10>
+    PHI_MINUS = 3  # |00> - |11>
 
 
 class PairSpec:
@@ -60,6 +69,8 @@ class FakeLink:
         self.generated: List[dict] = []
         self.counters: Dict[str, int] = {}
         self.stopped = False
+        self.bell_override: Optional[Callable[[dict, int], LinkBell]] = None
+        self.validate_all = False
 
     def bump(self, k: str, n: int = 1) -> None:
         self.counters[k] = self.counters.get(k, 0) + n
@@ -83,7 +94,9 @@ class FakeLink:
     # -- requests ------------------------------------------------------------
     def on_put(self, node_id: int, request: Any) -> None:
         # a real stack converts to the qlink-1.0 interface; it must be accepted
-        request_to_qlink_1_0(request)
+        # (remote-state-preparation requests have no qlink-1.0 form; only C11 insists on one)
+        if self.validate_all or request.type != RequestType.R:
+            request_to_qlink_1_0(request)
         self.puts.append((node_id, request))
         remote = request.remote_node_id
         purpose = request.purpose_id
@@ -126,7 +139,7 @@ class FakeLink:
         ch = self.ch
         c, r = job["creator"], job["receiver"]
         tp = job["type"]
-        bell = BellState(ch.draw(self.bell_choices, "bell"))
+        bell = self.bell_override(job, k) if self.bell_override is not None else LinkBell(ch.draw(self.bell_choices, "bell"))
         seq = self.next_seq if not self.distinct_fields else self.uniq()
         self.next_seq += 1
         good = self.uniq() if self.distinct_fields else ch.draw(8, "goodness")
@@ -181,18 +194,18 @@ class FakeLink:
         if self.legacy:
             return LinkLayerOKTypeK(type=ReturnType.OK_K, create_id=cid, logical_qubit_id=phys, directionality_flag=d,
                                     sequence_number=seq, purpose_id=purpose, remote_node_id=remote, goodness=good,
-                                    goodness_time=tgood, bell_state=bell)
+                                    goodness_time=tgood, bell_state=BellState(bell.value))
         return ql.ResCreateAndKeep(create_id=cid, directionality_flag=d, sequence_number=seq, purpose_id=purpose,
-                                   remote_node_id=remote, goodness=good, bell_state=bell, logical_qubit_id=phys,
+                                   remote_node_id=remote, goodness=good, bell_state=BellState(bell.value), logical_qubit_id=phys,
                                    time_of_goodness=tgood)
 
     def _resp_m(self, cid, outcome, basis, d, seq, purpose, remote, good, bell):
         if self.legacy:
             return LinkLayerOKTypeM(type=ReturnType.OK_M, create_id=cid, measurement_outcome=outcome,
                                     measurement_basis=basis, directionality_flag=d, sequence_number=seq,
-                                    purpose_id=purpose, remote_node_id=remote, goodness=good, bell_state=bell)
+                                    purpose_id=purpose, remote_node_id=remote, goodness=good, bell_state=BellState(bell.value))
         return ql.ResMeasureDirectly(create_id=cid, directionality_flag=d, sequence_number=seq, purpose_id=purpose,
-                                     remote_node_id=remote, goodness=good, bell_state=bell,
+                                     remote_node_id=remote, goodness=good, bell_state=BellState(bell.value),
                                      measurement_outcome=outcome, measurement_basis=ql.MeasurementBasis(basis.value))
 
     # -- delivery ------------------------------------------------------------
